@@ -53,6 +53,8 @@ def c13():
                features=F, encodes=["src/methods/ema.rs: derive DMA, TMA, DEMA, TEMA", "src/methods/tsi.rs: derive TSI"], cost=175, timeout=1800, tier="t"))
     j.append(K("c13_serde::c13_idem_small_methods", IDEM + "Cross/CrossAbove/CrossUnder::new (bounded-magnitude inputs), TR::new (raw candle), HeikinAshi::new, CollapseTimeframe::new (state None, symbolic period), Renko (one concrete state per arithmetic-free Source)",
                features=F, encodes=["src/methods/cross.rs: derive Cross, CrossAbove, CrossUnder", "src/methods/tr.rs: derive TR", "src/methods/heikin_ashi.rs: derive HeikinAshi", "src/methods/collapse_timeframe.rs: derive CollapseTimeframe", "src/methods/renko.rs: derive Renko"], cost=150, timeout=1200))
+    j.append(K("c13_serde::c13_cross_continues", "a restored instance continues like the original: Cross/CrossAbove/CrossUnder::new(a, b), one symbolic step, token round trip, then one more symbolic step fed to the original and to the restored instance gives the same action (bounded-magnitude inputs; covers: upward and downward cross after the snapshot)",
+               features=F, encodes=["src/methods/cross.rs: derive Cross, CrossAbove, CrossUnder; Cross/CrossAbove/CrossUnder::{new,next}"], cost=60, timeout=1200))
     j.append(K("c13_serde::c13_idem_collapse_some", IDEM + "CollapseTimeframe<Candle> holding Some(symbolic candle), period 3",
                features=F, encodes=["src/methods/collapse_timeframe.rs: derive CollapseTimeframe"], cost=25, timeout=900, tier="t"))
     for g, names in CFG_GROUPS.items():
